@@ -86,7 +86,7 @@ def evaluate(text, env):
 
 
 # ---------------------------------------------------------------------- expression space
-LITS_FULL = ["0", "1", "2", "3", "7", "10", "0x10", "255", "65535", "4294967296", "0xfF", "0x0a", "9007199254740993", "0x7FFFFFFFFFFFFFFF"]
+LITS_FULL = ["0", "1", "2", "3", "7", "10", "0x10", "255", "65535", "4294967296", "0xfF", "0x0a", "9007199254740993", "0x7FFFFFFFFFFFFFFF", "007", "0x00Ff", "0xABCDEF", "0xabcdef", "2147483648", "18446744073709551615"]
 LITS_SMALL = ["2", "3", "7", "10", "0x10"]
 OPS = ["+", "-", "*", "/"]
 
@@ -207,9 +207,11 @@ def run_exprs(unit):
         d = sc.dir
         write(os.path.join(d, "lib.bitproto"), LIB_TEXT)
         write(os.path.join(d, "lia.bitproto"), LIA_TEXT)
-        lines = ["proto t", "", 'import "lib.bitproto"', 'import al "lia.bitproto"', "", "const A1 = 6", "const A2 = 1000", ""]
+        # booleans before and after the integers (1 == True and 0 == False in Python: nothing may confuse them), a string in between
+        lines = ["proto t", "", 'import "lib.bitproto"', 'import al "lia.bitproto"', "", "const A1 = 6", "const A2 = 1000", "", "const YES0 = true", "const NO0 = false", ""]
         for k, (e, v, neg) in enumerate(items):
             lines.append("const K%d = %s" % (k, e))
+        lines += ["const YES1 = yes", "const NO1 = no", 'const ONE_S = "1"', "const ONE_AGAIN = 1", "const ZERO_AGAIN = 0", "const YES2 = YES0", "const ONE_REF = ONE_AGAIN"]
         # (d) evaluated values as array capacities / option values
         caps = [(k, v) for k, (e, v, neg) in enumerate(items) if 1 <= v <= 300 and not neg][:25]
         for k, v in caps:
@@ -255,6 +257,20 @@ def run_exprs(unit):
             m = re.search(r"^#define K%d (-?\d+)$" % k, outs["c"], re.M)
             if not m or int(m.group(1)) != gv:
                 _viol(out, "emit-c", "wrong_literal", "c:constant", "K%d = %s (= %d): C macro %r" % (k, e, gv, m.group(0) if m else None), "", files)
+        for name, kind, want in (("YES0", "bool", True), ("NO0", "bool", False), ("YES1", "bool", True), ("NO1", "bool", False), ("YES2", "bool", True),
+                                 ("ONE_AGAIN", "int", 1), ("ZERO_AGAIN", "int", 0), ("ONE_REF", "int", 1)):
+            out.count("evaluations", 4)
+            got = consts.get(name)
+            if type(got) is not type(want) or got != want:
+                _viol(out, "evaluate", "wrong_value", "compiler/bitproto/parser.py", "const %s evaluates to %r, expected %r" % (name, got, want), "", files)
+                continue
+            pl, gl, cl = ("True", "true", "true") if want is True else ("False", "false", "false") if want is False else (str(want),) * 3
+            if not re.search(r"^%s: %s = %s$" % (name, kind, pl), outs["py"], re.M):
+                _viol(out, "emit-py", "wrong_literal", "py:constant", "%s (%r): python line %r" % (name, want, re.findall(r"^%s.*$" % name, outs["py"], re.M)[:1]), "", files)
+            if not re.search(r"^const %s(?: \w+)? = %s$" % (name, gl), outs["go"], re.M):
+                _viol(out, "emit-go", "wrong_literal", "go:constant", "%s (%r): go line %r" % (name, want, re.findall(r"^const %s.*$" % name, outs["go"], re.M)[:1]), "", files)
+            if not re.search(r"^#define %s %s$" % (name, cl), outs["c"], re.M):
+                _viol(out, "emit-c", "wrong_literal", "c:constant", "%s (%r): C line %r" % (name, want, re.findall(r"^#define %s .*$" % name, outs["c"], re.M)[:1]), "", files)
         # capacities and option values
         for k, v in caps:
             msg = proto.get_member("M%d" % k)
